@@ -8,3 +8,6 @@ import TradingVerif.Props.C08
 #print axioms TV.null_action_denotes
 #print axioms TV.execution_books
 #print axioms TV.rebalance_trades_use_current_quotes
+#print axioms TV.envStep_queue
+#print axioms TV.episode_fifo
+#print axioms TV.episode_fifo_reset
